@@ -1,1 +1,165 @@
-//! ref_text (to be filled)
+//! Reference model of a text archive: insertion-ordered map with newline escaping (C07)
+//! and an independent reader of the file image (C06).
+
+use crate::ref_bin::{self, End};
+use crate::sjis;
+
+#[derive(Clone, Copy, Debug, PartialEq, Eq, Hash)]
+pub enum Fmt {
+    ShiftJis,
+    Unicode,
+}
+
+/// What `set_message` stores: every two-character sequence backslash,'n' becomes a newline
+/// (left to right, non-overlapping).
+pub fn unescape(m: &str) -> String {
+    let mut out = String::new();
+    let cs: Vec<char> = m.chars().collect();
+    let mut i = 0;
+    while i < cs.len() {
+        if cs[i] == '\\' && i + 1 < cs.len() && cs[i + 1] == 'n' {
+            out.push('\n');
+            i += 2;
+        } else {
+            out.push(cs[i]);
+            i += 1;
+        }
+    }
+    out
+}
+
+/// What `get_message` returns: every newline comes back as backslash,'n'.
+pub fn escape(stored: &str) -> String {
+    let mut out = String::new();
+    for c in stored.chars() {
+        if c == '\n' {
+            out.push('\\');
+            out.push('n');
+        } else {
+            out.push(c);
+        }
+    }
+    out
+}
+
+#[derive(Clone, Debug, PartialEq, Eq, Hash)]
+pub struct TextModel {
+    pub title: String,
+    /// stored (unescaped) values in insertion order
+    pub entries: Vec<(String, String)>,
+    pub dirty: bool,
+}
+
+impl TextModel {
+    pub fn new() -> Self {
+        TextModel { title: String::new(), entries: vec![], dirty: false }
+    }
+    pub fn set_message(&mut self, k: &str, m: &str) {
+        let v = unescape(m);
+        match self.entries.iter_mut().find(|(key, _)| key == k) {
+            Some(e) => e.1 = v,
+            None => self.entries.push((k.to_string(), v)),
+        }
+        self.dirty = true;
+    }
+    pub fn delete_message(&mut self, k: &str) {
+        self.entries.retain(|(key, _)| key != k);
+    }
+    pub fn get_message(&self, k: &str) -> Option<String> {
+        self.entries.iter().find(|(key, _)| key == k).map(|(_, v)| escape(v))
+    }
+    pub fn has_message(&self, k: &str) -> bool {
+        self.entries.iter().any(|(key, _)| key == k)
+    }
+}
+
+impl Default for TextModel {
+    fn default() -> Self {
+        Self::new()
+    }
+}
+
+#[derive(Debug, Clone, PartialEq, Eq)]
+pub struct ReadBack {
+    pub title: Option<String>,
+    /// (record start address, key = first label on that address, message)
+    pub records: Vec<(usize, Option<String>, String)>,
+}
+
+/// Independent reader of a text-archive image (DESIGN Appendix A). Strict: any deviation
+/// (unaligned record, missing terminator, leftover bytes, pointers present) is an Err.
+pub fn read_image(bytes: &[u8], fmt: Fmt, e: End) -> Result<ReadBack, String> {
+    let p = ref_bin::parse(bytes, e)?;
+    if p.pointer_count != 0 {
+        return Err(format!("text archive image has {} pointers", p.pointer_count));
+    }
+    let d = &p.content.data;
+    let mut pos = 0usize;
+    let pad4 = |x: usize| (x + 3) / 4 * 4;
+    let mut title = None;
+    if fmt == Fmt::Unicode {
+        let n = d.iter().position(|b| *b == 0).ok_or("title is not NUL-terminated")?;
+        title = Some(sjis::decode(&d[..n]));
+        let end = pad4(n + 1);
+        if end > d.len() || d[n..end].iter().any(|b| *b != 0) {
+            return Err("title padding is not zero / runs past the data".into());
+        }
+        pos = end;
+    }
+    let mut records = Vec::new();
+    while pos < d.len() {
+        if pos % 4 != 0 {
+            return Err(format!("record at {} is not 4-byte aligned", pos));
+        }
+        let start = pos;
+        let msg;
+        match fmt {
+            Fmt::ShiftJis => {
+                let n = d[pos..].iter().position(|b| *b == 0).ok_or(format!("message at {} is not terminated", pos))?;
+                msg = sjis::decode(&d[pos..pos + n]);
+                pos += n + 1;
+            }
+            Fmt::Unicode => {
+                let mut units: Vec<u16> = Vec::new();
+                loop {
+                    if pos + 2 > d.len() {
+                        return Err(format!("message at {} is not terminated", start));
+                    }
+                    let u = u16::from_le_bytes([d[pos], d[pos + 1]]);
+                    pos += 2;
+                    if u == 0 {
+                        break;
+                    }
+                    units.push(u);
+                }
+                msg = String::from_utf16(&units).map_err(|_| format!("message at {} is not valid UTF-16", start))?;
+            }
+        }
+        let end = pad4(pos);
+        if end > d.len() || d[pos..end].iter().any(|b| *b != 0) {
+            return Err(format!("padding after the message at {} is not zero / runs past the data", start));
+        }
+        pos = end;
+        let key = p.content.labels.get(&start).and_then(|v| v.first().cloned());
+        records.push((start, key, msg));
+    }
+    // every label must sit on a record start
+    for a in p.content.labels.keys() {
+        if !records.iter().any(|r| r.0 == *a) {
+            return Err(format!("label on address {} which is not the start of a message", a));
+        }
+    }
+    Ok(ReadBack { title, records })
+}
+
+#[cfg(test)]
+mod tests {
+    use super::*;
+    #[test]
+    fn esc() {
+        assert_eq!(unescape("a\\nb"), "a\nb");
+        assert_eq!(unescape("\\\\n"), "\\\n");
+        assert_eq!(escape("a\nb"), "a\\nb");
+        assert_eq!(unescape(&escape("x\n\\y")), "x\n\\y");
+    }
+}
